@@ -621,6 +621,7 @@ func (p *c20) RunCase(ctx *runner.Ctx) runner.CaseResult {
 			p.interpreterSwap(x, adapt.Adapters[ctx.Case-seqCases], ctx)
 			p.noItemSearches(x, adapt.Adapters[ctx.Case-seqCases])
 			p.rejectedNativeUpdate(x, adapt.Adapters[ctx.Case-seqCases])
+			p.missingUpdaterAndConditions(x, adapt.Adapters[ctx.Case-seqCases])
 			return x.r
 		}
 		p.parallelClients(x, ctx.Case-seqCases-2, ctx)
